@@ -4,23 +4,145 @@ import I18nVerif.Spec.Context
 namespace I18nVerif.Context
 open Spec
 
-/-- abstraction relation: state `s` represents history `h` -/
-structure Abs (s : State) (h : Hist) : Prop where
+/-! ### the owner chain -/
+
+/-- parents are older owners -/
+abbrev OwnersWF (owners : List OwnerNode) : Prop :=
+  ∀ (o : Nat) (n : OwnerNode) (p : Nat), owners[o]? = some n → n.parent = some p → p < o
+
+theorem lookupFuel_fuel {owners : List OwnerNode} (wf : OwnersWF owners) :
+    ∀ o f, o + 1 ≤ f → lookupFuel owners f o = lookupFuel owners (o + 1) o := by
+  intro o
+  induction o using Nat.strongRecOn with
+  | _ o ih =>
+    intro f hf
+    obtain ⟨f', rfl⟩ : ∃ f', f = f' + 1 := ⟨f - 1, by omega⟩
+    simp only [lookupFuel]
+    cases hn : owners[o]? with
+    | none => rfl
+    | some n =>
+      cases hp : n.provided with
+      | some c => simp [hp]
+      | none =>
+        cases hpar : n.parent with
+        | none => simp [hp, hpar]
+        | some p =>
+          have hlt := wf o n p hn hpar
+          simp only [hp, hpar]
+          rw [ih p hlt f' (by omega), ih p hlt o (by omega)]
+
+theorem lookup_unfold {owners : List OwnerNode} (wf : OwnersWF owners) {o : Nat} {n : OwnerNode}
+    (hn : owners[o]? = some n) :
+    lookupFuel owners (o + 1) o =
+      match n.provided with
+      | some c => some c
+      | none => match n.parent with
+        | some p => lookupFuel owners (p + 1) p
+        | none => none := by
+  simp only [lookupFuel, hn]
+  cases hp : n.provided with
+  | some c => rfl
+  | none =>
+    cases hpar : n.parent with
+    | none => rfl
+    | some p =>
+      simp only []
+      have hlt := wf o n p hn hpar
+      exact lookupFuel_fuel wf p o (by omega)
+
+theorem wf_append {owners : List OwnerNode} (wf : OwnersWF owners) (n : OwnerNode)
+    (hp : ∀ p, n.parent = some p → p < owners.length) : OwnersWF (owners ++ [n]) := by
+  intro o m p hm hpar
+  by_cases ho : o < owners.length
+  · rw [List.getElem?_append_left ho] at hm
+    exact wf o m p hm hpar
+  · by_cases ho' : o = owners.length
+    · subst ho'
+      simp at hm
+      subst hm
+      exact hp p hpar
+    · have : (owners ++ [n])[o]? = none := by simp; omega
+      rw [this] at hm; cases hm
+
+theorem lookup_append {owners : List OwnerNode} (wf : OwnersWF owners) (n : OwnerNode)
+    (hp : ∀ p, n.parent = some p → p < owners.length) :
+    ∀ o, o < owners.length → lookupFuel (owners ++ [n]) (o + 1) o = lookupFuel owners (o + 1) o := by
+  intro o
+  induction o using Nat.strongRecOn with
+  | _ o ih =>
+    intro ho
+    have wf' := wf_append wf n hp
+    obtain ⟨m, hm⟩ : ∃ m, owners[o]? = some m := ⟨owners[o], List.getElem?_eq_getElem ho⟩
+    have hm' : (owners ++ [n])[o]? = some m := by rw [List.getElem?_append_left ho]; exact hm
+    rw [lookup_unfold wf' hm', lookup_unfold wf hm]
+    cases hpv : m.provided with
+    | some c => rfl
+    | none =>
+      cases hpar : m.parent with
+      | none => rfl
+      | some p =>
+        have hlt := wf o m p hm hpar
+        simp only []
+        exact ih p hlt (by omega)
+
+theorem lookup_new {owners : List OwnerNode} (wf : OwnersWF owners) (n : OwnerNode)
+    (hp : ∀ p, n.parent = some p → p < owners.length) :
+    lookupFuel (owners ++ [n]) (owners.length + 1) owners.length =
+      match n.provided with
+      | some c => some c
+      | none => match n.parent with
+        | some p => lookupFuel owners (p + 1) p
+        | none => none := by
+  have wf' := wf_append wf n hp
+  have hm : (owners ++ [n])[owners.length]? = some n := by simp
+  rw [lookup_unfold wf' hm]
+  cases hpv : n.provided with
+  | some c => rfl
+  | none =>
+    cases hpar : n.parent with
+    | none => rfl
+    | some p =>
+      simp only []
+      exact lookup_append wf n hp p (hp p hpar)
+
+/-! ### abstraction relation -/
+
+/-- contexts, views, closures -/
+structure AbsCore (s : State) (h : Hist) : Prop where
   views : s.views = Spec.views h
   closures : s.closures = Spec.closures h
   len : s.cells.length = nCtx h
   cells : ∀ c, s.cells[c]? = current h c
 
-theorem abs_empty : Abs State.empty [] :=
-  ⟨rfl, rfl, rfl, fun c => by simp [State.empty, current]⟩
+/-- memos: same view, cache = value at the last evaluation, dirty = stale -/
+structure AbsMemo (ms : List Memo) (h : Hist) : Prop where
+  len : ms.length = (memoViews h).length
+  get : ∀ i, ms[i]? = ((memoViews h)[i]?).map (fun v => ({ view := v, cache := memoCache h i, dirty := memoStale h i } : Memo))
 
-theorem Abs.read {s : State} {h : Hist} (a : Abs s h) (v : Nat) : s.read v = viewLocale h v := by
+/-- owners: what the chain walk finds is what the specification says is visible -/
+structure AbsOwn (owners : List OwnerNode) (h : Hist) : Prop where
+  len : owners.length = nOwners h
+  wf : OwnersWF owners
+  lookup : ∀ o, o < owners.length → lookupFuel owners (o + 1) o = visible h o
+
+/-- abstraction relation: state `s` represents history `h` -/
+structure Abs (s : State) (h : Hist) : Prop where
+  core : AbsCore s h
+  memo : AbsMemo s.memos h
+  own : AbsOwn s.owners h
+
+theorem abs_empty : Abs State.empty [] :=
+  ⟨⟨rfl, rfl, rfl, fun c => by simp [State.empty, current]⟩,
+   ⟨rfl, fun i => by simp [State.empty, memoViews]⟩,
+   ⟨rfl, fun o n p hn _ => by simp [State.empty] at hn, fun o ho => by simp [State.empty] at ho⟩⟩
+
+theorem AbsCore.read {s : State} {h : Hist} (a : AbsCore s h) (v : Nat) : s.read v = viewLocale h v := by
   unfold State.read viewLocale
   rw [a.views]
   cases (Spec.views h)[v]? <;> simp [a.cells]
 
 /-- cells after appending a fresh context -/
-theorem getElem?_append_one (cells : List Locale) (l : Locale) (c : Nat) :
+theorem getElem?_append_one {α : Type} (cells : List α) (l : α) (c : Nat) :
     (cells ++ [l])[c]? = if c = cells.length then some l else cells[c]? := by
   by_cases h1 : c < cells.length
   · have : c ≠ cells.length := by omega
@@ -32,10 +154,54 @@ theorem getElem?_append_one (cells : List Locale) (l : Locale) (c : Nat) :
       rw [if_neg h2, this]
       simp; omega
 
-theorem write_spec {s : State} {h : Hist} (a : Abs s h) (v : Nat) (l : Locale) :
-    match s.write v l with
+/-! ### operations that leave a component alone -/
+
+def memoNeutral : Op → Bool
+  | .makeMemo _ => false
+  | .readMemo _ => false
+  | .set _ _ => false
+  | _ => true
+
+theorem AbsMemo.neutral {ms : List Memo} {h : Hist} (a : AbsMemo ms h) (op : Op) (hn : memoNeutral op = true) :
+    AbsMemo ms (op :: h) := by
+  cases op <;> simp [memoNeutral] at hn <;>
+    exact ⟨by simpa [memoViews] using a.len, fun i => by simpa [memoViews, memoCache, memoStale] using a.get i⟩
+
+def ownerNeutral : Op → Bool
+  | .provideRoot _ => false
+  | .childOwner _ => false
+  | .provider _ _ _ => false
+  | _ => true
+
+theorem AbsOwn.neutral {owners : List OwnerNode} {h : Hist} (a : AbsOwn owners h) (op : Op)
+    (hn : ownerNeutral op = true) : AbsOwn owners (op :: h) := by
+  cases op <;> simp [ownerNeutral] at hn <;>
+    exact ⟨by simpa [nOwners] using a.len, a.wf, fun o ho => by simpa [visible] using a.lookup o ho⟩
+
+def coreNeutral : Op → Bool
+  | .get _ => true
+  | .getUntracked _ => true
+  | .callClosure _ => true
+  | .makeMemo _ => true
+  | .readMemo _ => true
+  | .childOwner _ => true
+  | _ => false
+
+theorem AbsCore.neutral {s s' : State} {h : Hist} (a : AbsCore s h) (op : Op) (hn : coreNeutral op = true)
+    (h1 : s'.cells = s.cells) (h2 : s'.views = s.views) (h3 : s'.closures = s.closures) : AbsCore s' (op :: h) := by
+  cases op <;> simp [coreNeutral] at hn <;>
+    exact ⟨by simpa [Spec.views, h2] using a.views, by simpa [Spec.closures, h3] using a.closures,
+      by simpa [nCtx, h1] using a.len, fun c => by simpa [current, h1] using a.cells c⟩
+
+
+/-! ### one step -/
+
+theorem write_spec {s : State} {h : Hist} (a : AbsCore s h) (v : Nat) (l : Locale) (tracked : Bool) :
+    match s.write v l tracked with
     | some s' => (viewLocale h v).isSome = true ∧ s'.views = s.views ∧ s'.closures = s.closures ∧
-        s'.cells.length = s.cells.length ∧
+        s'.cells.length = s.cells.length ∧ s'.owners = s.owners ∧
+        (∃ c, (Spec.views h)[v]? = some c ∧
+          s'.memos = if tracked then markDirty s.views c s.memos else s.memos) ∧
         ∀ c, s'.cells[c]? = if (Spec.views h)[v]? = some c then some l else current h c
     | none => viewLocale h v = none := by
   unfold State.write viewLocale
@@ -47,6 +213,7 @@ theorem write_spec {s : State} {h : Hist} (a : Abs s h) (v : Nat) (l : Locale) :
     · have hc : (current h c).isSome = true := by
         rw [← a.cells c]; simp [hlt]
       simp only [hlt, if_true, hc, List.length_set, true_and]
+      refine ⟨⟨c, rfl, rfl⟩, ?_⟩
       intro c'
       rw [List.getElem?_set]
       by_cases e : c = c'
@@ -56,103 +223,296 @@ theorem write_spec {s : State} {h : Hist} (a : Abs s h) (v : Nat) (l : Locale) :
         rw [← a.cells c]; simp; omega
       simp [hlt, this]
 
+theorem markDirty_getElem? (views : List Nat) (c : Nat) (ms : List Memo) (i : Nat) :
+    (markDirty views c ms)[i]? =
+      (ms[i]?).map (fun m => if views[m.view]? = some c then { m with dirty := true } else m) := by
+  simp [markDirty]
+
 theorem step_refines {s : State} {h : Hist} (a : Abs s h) (op : Op) :
     (step s op).2 = obsAt h op ∧ Abs (step s op).1 (if obsAt h op = .bad then h else op :: h) := by
+  obtain ⟨ac, am, ao⟩ := a
   cases op with
   | newRoot init =>
-    refine ⟨by simp [step, obsAt, a.views], ?_⟩
+    refine ⟨by simp [step, obsAt, ac.views], ?_⟩
     simp only [obsAt, step, reduceCtorEq, if_false]
-    refine ⟨by simp [Spec.views, a.views, a.len], by simp [Spec.closures, a.closures], by simp [nCtx, a.len], ?_⟩
+    refine ⟨⟨by simp [Spec.views, ac.views, ac.len], by simp [Spec.closures, ac.closures], by simp [nCtx, ac.len], ?_⟩,
+      am.neutral _ rfl, ao.neutral _ rfl⟩
     intro c
-    simp only [current, getElem?_append_one, a.len, a.cells]
+    simp only [current, getElem?_append_one, ac.len, ac.cells]
   | sub parent initial fallback =>
     cases parent with
     | none =>
-      refine ⟨by simp [step, obsAt, a.views], ?_⟩
+      refine ⟨by simp [step, obsAt, ac.views], ?_⟩
       simp only [obsAt, step, reduceCtorEq, if_false]
-      refine ⟨by simp [Spec.views, a.views, a.len], by simp [Spec.closures, a.closures], by simp [nCtx, a.len], ?_⟩
+      refine ⟨⟨by simp [Spec.views, ac.views, ac.len], by simp [Spec.closures, ac.closures], by simp [nCtx, ac.len], ?_⟩,
+        am.neutral _ rfl, ao.neutral _ rfl⟩
       intro c
-      simp only [current, getElem?_append_one, a.len, a.cells]
-      cases initial <;> simp [Resolve.subMemo, Resolve.signalMaybeOnceThen]
+      simp only [current, getElem?_append_one, ac.len, ac.cells]
+      cases initial <;> simp [subInit, Resolve.subMemo, Resolve.signalMaybeOnceThen]
     | some pv =>
-      have hr := a.read pv
+      have hr := ac.read pv
       cases hv : viewLocale h pv with
       | none =>
         rw [hv] at hr
-        simp [step, obsAt, hr, hv, a]
+        simp only [step, obsAt, hr, hv, Option.map_none, Option.isSome_none, Bool.false_eq_true, if_false, if_true, true_and]
+        exact ⟨ac, am, ao⟩
       | some pl =>
         rw [hv] at hr
-        refine ⟨by simp [step, obsAt, hr, hv, a.views], ?_⟩
+        refine ⟨by simp [step, obsAt, hr, hv, ac.views], ?_⟩
         simp only [obsAt, hv, Option.isSome_some, if_true, step, hr, Option.map_some, reduceCtorEq, if_false]
-        refine ⟨by simp [Spec.views, a.views, a.len], by simp [Spec.closures, a.closures], by simp [nCtx, a.len], ?_⟩
+        refine ⟨⟨by simp [Spec.views, ac.views, ac.len], by simp [Spec.closures, ac.closures], by simp [nCtx, ac.len], ?_⟩,
+          am.neutral _ rfl, ao.neutral _ rfl⟩
         intro c
-        simp only [current, getElem?_append_one, a.len, a.cells]
+        simp only [current, getElem?_append_one, ac.len, ac.cells]
         cases initial with
         | none =>
-          simp only [Resolve.subMemo, Resolve.signalMaybeOnceThen, Resolve.signalOnceThen, if_true, Option.or_none,
+          simp only [subInit, Resolve.subMemo, Resolve.signalMaybeOnceThen, Resolve.signalOnceThen, if_true, Option.or_none,
             Option.getD_none]
           unfold viewLocale at hv
           cases hx : (Spec.views h)[pv]? with
           | none => simp [hx] at hv
           | some pc => simp only [hx] at hv; simp [hv]
-        | some i => simp [Resolve.subMemo, Resolve.signalMaybeOnceThen, Resolve.signalOnceThen]
+        | some i => simp [subInit, Resolve.subMemo, Resolve.signalMaybeOnceThen, Resolve.signalOnceThen]
   | scope v =>
     cases hv : (Spec.views h)[v]? with
     | none =>
       have hlt : ¬ v < (Spec.views h).length := by
         intro hlt; simp [List.getElem?_eq_getElem hlt] at hv
-      simp [step, obsAt, a.views, hlt, a]
+      simp only [step, obsAt, ac.views, hv, hlt, if_false, if_true, true_and]
+      exact ⟨ac, am, ao⟩
     | some c =>
-      have hlt : v < (Spec.views h).length := by
-        have := List.getElem?_eq_some_iff.mp hv; exact this.1
-      refine ⟨by simp [step, obsAt, a.views, hlt], ?_⟩
-      simp only [obsAt, hlt, if_true, step, a.views, hv, reduceCtorEq, if_false]
-      exact ⟨by simp [Spec.views, hv], by simp [Spec.closures, a.closures], by simp [nCtx, a.len],
-        fun c' => by simp [current, a.cells]⟩
+      have hlt : v < (Spec.views h).length := (List.getElem?_eq_some_iff.mp hv).1
+      refine ⟨by simp [step, obsAt, ac.views, hlt], ?_⟩
+      simp only [obsAt, hlt, if_true, step, ac.views, hv, reduceCtorEq, if_false]
+      exact ⟨⟨by simp [Spec.views, hv], by simp [Spec.closures, ac.closures], by simp [nCtx, ac.len],
+        fun c' => by simp [current, ac.cells]⟩, am.neutral _ rfl, ao.neutral _ rfl⟩
   | set v l =>
-    have hw := write_spec a v l
-    cases hwr : s.write v l with
+    have hw := write_spec ac v l true
+    cases hwr : s.write v l true with
     | none =>
       rw [hwr] at hw
-      simp [step, obsAt, hwr, hw, a]
+      simp only [step, obsAt, hwr, hw, Option.isSome_none, Bool.false_eq_true, if_false, if_true, true_and]
+      exact ⟨ac, am, ao⟩
     | some s' =>
       rw [hwr] at hw
-      obtain ⟨h1, h2, h3, h4, h5⟩ := hw
+      obtain ⟨h1, h2, h3, h4, h5, ⟨c, hc, h6⟩, h7⟩ := hw
       simp only [step, obsAt, hwr, h1, if_true, reduceCtorEq, if_false, true_and]
-      exact ⟨by simp [Spec.views, h2, a.views], by simp [Spec.closures, h3, a.closures], by simp [nCtx, h4, a.len],
-        fun c => by simp [current, h5]⟩
+      refine ⟨⟨by simp [Spec.views, h2, ac.views], by simp [Spec.closures, h3, ac.closures], by simp [nCtx, h4, ac.len],
+        fun c => by simp [current, h7]⟩, ?_, by rw [h5]; exact ao.neutral _ rfl⟩
+      rw [h6]
+      refine ⟨by simp [markDirty, memoViews, am.len], ?_⟩
+      intro i
+      simp only [if_true, markDirty_getElem?, am.get i, memoViews, memoCache, memoStale, memoCtx]
+      obtain hm | ⟨mv, hm⟩ : (memoViews h)[i]? = none ∨ ∃ mv, (memoViews h)[i]? = some mv := by
+        cases (memoViews h)[i]? <;> simp
+      · simp [hm]
+      · simp only [hm, Option.map_some, ac.views, hc]
+        by_cases hx : (Spec.views h)[mv]? = some c <;> simp [hx]
   | setUntracked v l =>
-    have hw := write_spec a v l
-    cases hwr : s.write v l with
+    have hw := write_spec ac v l false
+    cases hwr : s.write v l false with
     | none =>
       rw [hwr] at hw
-      simp [step, obsAt, hwr, hw, a]
+      simp only [step, obsAt, hwr, hw, Option.isSome_none, Bool.false_eq_true, if_false, if_true, true_and]
+      exact ⟨ac, am, ao⟩
     | some s' =>
       rw [hwr] at hw
-      obtain ⟨h1, h2, h3, h4, h5⟩ := hw
+      obtain ⟨h1, h2, h3, h4, h5, ⟨c, hc, h6⟩, h7⟩ := hw
       simp only [step, obsAt, hwr, h1, if_true, reduceCtorEq, if_false, true_and]
-      exact ⟨by simp [Spec.views, h2, a.views], by simp [Spec.closures, h3, a.closures], by simp [nCtx, h4, a.len],
-        fun c => by simp [current, h5]⟩
+      exact ⟨⟨by simp [Spec.views, h2, ac.views], by simp [Spec.closures, h3, ac.closures], by simp [nCtx, h4, ac.len],
+        fun c => by simp [current, h7]⟩, by rw [h6]; exact am.neutral _ rfl, by rw [h5]; exact ao.neutral _ rfl⟩
   | get v =>
-    have hr := a.read v
-    cases hv : viewLocale h v <;> rw [hv] at hr <;> simp [step, obsAt, hr, hv, a]
-    exact ⟨a.views, a.closures, a.len, fun c => by simp [current, a.cells]⟩
+    have hr := ac.read v
+    cases hv : viewLocale h v with
+    | none =>
+      rw [hv] at hr
+      simp only [step, obsAt, hr, hv, if_true, true_and]
+      exact ⟨ac, am, ao⟩
+    | some l =>
+      rw [hv] at hr
+      simp only [step, obsAt, hr, hv, reduceCtorEq, if_false, true_and]
+      exact ⟨ac.neutral _ rfl rfl rfl rfl, am.neutral _ rfl, ao.neutral _ rfl⟩
   | getUntracked v =>
-    have hr := a.read v
-    cases hv : viewLocale h v <;> rw [hv] at hr <;> simp [step, obsAt, hr, hv, a]
-    exact ⟨a.views, a.closures, a.len, fun c => by simp [current, a.cells]⟩
+    have hr := ac.read v
+    cases hv : viewLocale h v with
+    | none =>
+      rw [hv] at hr
+      simp only [step, obsAt, hr, hv, if_true, true_and]
+      exact ⟨ac, am, ao⟩
+    | some l =>
+      rw [hv] at hr
+      simp only [step, obsAt, hr, hv, reduceCtorEq, if_false, true_and]
+      exact ⟨ac.neutral _ rfl rfl rfl rfl, am.neutral _ rfl, ao.neutral _ rfl⟩
   | makeClosure v =>
     by_cases hlt : v < (Spec.views h).length
-    · simp [step, obsAt, a.views, hlt, a.closures]
-      exact ⟨by simp [Spec.views], by simp [Spec.closures], by simp [nCtx, a.len],
-        fun c => by simp [current, a.cells]⟩
-    · simp [step, obsAt, a.views, hlt, a]
+    · simp only [step, obsAt, ac.views, hlt, if_true, ac.closures, reduceCtorEq, if_false, true_and]
+      exact ⟨⟨by simp [Spec.views], by simp [Spec.closures], by simp [nCtx, ac.len],
+        fun c => by simp [current, ac.cells]⟩, am.neutral _ rfl, ao.neutral _ rfl⟩
+    · simp only [step, obsAt, ac.views, hlt, if_false, if_true, true_and]
+      exact ⟨ac, am, ao⟩
   | callClosure i =>
     cases hi : (Spec.closures h)[i]? with
-    | none => simp [step, obsAt, a.closures, hi, a]
+    | none =>
+      simp only [step, obsAt, ac.closures, hi, if_true, true_and]
+      exact ⟨ac, am, ao⟩
     | some v =>
-      have hr := a.read v
-      cases hv : viewLocale h v <;> rw [hv] at hr <;> simp [step, obsAt, a.closures, hi, hr, hv, a]
-      exact ⟨a.views, a.closures, a.len, fun c => by simp [current, a.cells]⟩
+      have hr := ac.read v
+      cases hv : viewLocale h v with
+      | none =>
+        rw [hv] at hr
+        simp only [step, obsAt, ac.closures, hi, hr, hv, if_true, true_and]
+        exact ⟨ac, am, ao⟩
+      | some l =>
+        rw [hv] at hr
+        simp only [step, obsAt, ac.closures, hi, hr, hv, reduceCtorEq, if_false, true_and]
+        exact ⟨ac.neutral _ rfl rfl rfl rfl, am.neutral _ rfl, ao.neutral _ rfl⟩
+  | makeMemo v =>
+    by_cases hlt : v < (Spec.views h).length
+    · have hlt' : v < s.views.length := by rw [ac.views]; exact hlt
+      simp only [step, obsAt, hlt', hlt, if_true, am.len, reduceCtorEq, if_false, true_and]
+      refine ⟨ac.neutral _ rfl rfl rfl rfl, ⟨by simp [memoViews, am.len], ?_⟩, ao.neutral _ rfl⟩
+      intro i
+      simp only [memoViews, memoCache, memoStale, getElem?_append_one, am.len, am.get i]
+      by_cases e : i = (memoViews h).length <;> simp [e]
+    · simp only [step, obsAt, ac.views, hlt, if_false, if_true, true_and]
+      exact ⟨ac, am, ao⟩
+  | readMemo i =>
+    have hg := am.get i
+    cases hm : (memoViews h)[i]? with
+    | none =>
+      rw [hm] at hg
+      simp only [Option.map_none] at hg
+      simp only [step, obsAt, memoRead, hg, hm, if_true, true_and]
+      exact ⟨ac, am, ao⟩
+    | some mv =>
+      rw [hm] at hg
+      simp only [Option.map_some] at hg
+      have hr := ac.read mv
+      cases hst : memoStale h i with
+      | true =>
+        cases hv : viewLocale h mv with
+        | none =>
+          rw [hv] at hr
+          simp only [step, obsAt, memoRead, hg, hm, hst, if_true, hr, hv, true_and]
+          exact ⟨ac, am, ao⟩
+        | some l =>
+          rw [hv] at hr
+          simp only [step, obsAt, memoRead, hg, hm, hst, if_true, hr, hv, reduceCtorEq, if_false, true_and]
+          refine ⟨ac.neutral _ rfl rfl rfl rfl, ⟨by simp [memoViews, am.len], ?_⟩, ao.neutral _ rfl⟩
+          intro j
+          simp only [memoViews, memoCache, memoStale, memoCtx, List.getElem?_set]
+          by_cases e : i = j
+          · subst e
+            have hlt : i < s.memos.length := (List.getElem?_eq_some_iff.mp hg).1
+            have hv' : (match (Spec.views h)[mv]? with | some c => current h c | none => none) = some l := hv
+            simp only [hlt, if_true, hm, hst, and_self, Option.map_some]
+            cases hx : (Spec.views h)[mv]? with
+            | none => simp [viewLocale, hx] at hv
+            | some c => simp [viewLocale, hx] at hv; simp [hv]
+          · simp [e, am.get j]
+      | false =>
+        cases hc : memoCache h i with
+        | none =>
+          simp only [step, obsAt, memoRead, hg, hm, hst, hc, Bool.false_eq_true, if_false, if_true, true_and]
+          exact ⟨ac, am, ao⟩
+        | some l =>
+          simp only [step, obsAt, memoRead, hg, hm, hst, hc, Bool.false_eq_true, if_false, reduceCtorEq, true_and]
+          refine ⟨ac.neutral _ rfl rfl rfl rfl, ⟨by simp [memoViews, am.len], ?_⟩, ao.neutral _ rfl⟩
+          intro j
+          simp only [memoViews, memoCache, memoStale]
+          by_cases e : i = j
+          · subst e; simp [am.get i, hm, hst, hc]
+          · simp [e, am.get j]
+  | provideRoot init =>
+    refine ⟨by simp [step, obsAt, ac.views, ac.len, ao.len], ?_⟩
+    simp only [obsAt, step, reduceCtorEq, if_false]
+    have hp : ∀ p, ({ parent := none, provided := some s.cells.length } : OwnerNode).parent = some p → p < s.owners.length := by
+      intro p hp; cases hp
+    refine ⟨⟨by simp [Spec.views, ac.views, ac.len], by simp [Spec.closures, ac.closures], by simp [nCtx, ac.len], ?_⟩,
+      am.neutral _ rfl, ⟨by simp [nOwners, ao.len], wf_append ao.wf _ hp, ?_⟩⟩
+    · intro c
+      simp only [current, getElem?_append_one, ac.len, ac.cells]
+    · intro o ho
+      simp only [List.length_append, List.length_singleton] at ho
+      by_cases e : o = s.owners.length
+      · subst e
+        rw [lookup_new ao.wf _ hp]
+        simp [visible, ao.len, ac.len]
+      · have ho' : o < s.owners.length := by omega
+        rw [lookup_append ao.wf _ hp o ho', ao.lookup o ho']
+        have : ¬ o = nOwners h := by rw [← ao.len]; exact e
+        simp [visible, this]
+  | childOwner p =>
+    by_cases hlt : p < nOwners h
+    · have hlt' : p < s.owners.length := by rw [ao.len]; exact hlt
+      simp only [step, obsAt, hlt, if_true, ao.len, reduceCtorEq, if_false, true_and]
+      have hp : ∀ q, ({ parent := some p, provided := none } : OwnerNode).parent = some q → q < s.owners.length := by
+        intro q hq; simp at hq; omega
+      refine ⟨ac.neutral _ rfl rfl rfl rfl, am.neutral _ rfl, ⟨by simp [nOwners, ao.len], wf_append ao.wf _ hp, ?_⟩⟩
+      intro o ho
+      simp only [List.length_append, List.length_singleton] at ho
+      by_cases e : o = s.owners.length
+      · subst e
+        rw [lookup_new ao.wf _ hp]
+        simp [visible, ao.len, ao.lookup p hlt']
+      · have ho' : o < s.owners.length := by omega
+        rw [lookup_append ao.wf _ hp o ho', ao.lookup o ho']
+        have : ¬ o = nOwners h := by rw [← ao.len]; exact e
+        simp [visible, this]
+    · have hlt' : ¬ p < s.owners.length := by rw [ao.len]; exact hlt
+      simp only [step, obsAt, hlt, hlt', if_false, if_true, true_and]
+      exact ⟨ac, am, ao⟩
+  | provider p initial fallback =>
+    by_cases hlt : p < nOwners h
+    · have hlt' : p < s.owners.length := by rw [ao.len]; exact hlt
+      simp only [step, obsAt, hlt, if_true, ao.len, ac.views, ac.len, reduceCtorEq, if_false, true_and]
+      have hp : ∀ q, ({ parent := some p, provided := some (nCtx h) } : OwnerNode).parent = some q → q < s.owners.length := by
+        intro q hq; simp at hq; omega
+      refine ⟨⟨by simp [Spec.views], by simp [Spec.closures, ac.closures], by simp [nCtx, ac.len], ?_⟩,
+        am.neutral _ rfl, ⟨by simp [nOwners, ao.len], wf_append ao.wf _ hp, ?_⟩⟩
+      · intro c
+        simp only [current, getElem?_append_one, ac.len, State.lookup, ao.lookup p hlt']
+        by_cases e : c = nCtx h
+        · simp only [e, if_true]
+          cases initial with
+          | some i => simp [subInit, Resolve.subMemo, Resolve.signalMaybeOnceThen, Resolve.signalOnceThen]
+          | none =>
+            cases hvis : visible h p with
+            | none => simp [subInit, Resolve.subMemo, Resolve.signalMaybeOnceThen]
+            | some pc =>
+              simp only [Option.bind_some, ac.cells]
+              cases current h pc <;> simp [subInit, Resolve.subMemo, Resolve.signalMaybeOnceThen, Resolve.signalOnceThen]
+        · simp [e, ac.cells]
+      · intro o ho
+        simp only [List.length_append, List.length_singleton] at ho
+        by_cases e : o = s.owners.length
+        · subst e
+          rw [lookup_new ao.wf _ hp]
+          simp [visible, ao.len]
+        · have ho' : o < s.owners.length := by omega
+          rw [lookup_append ao.wf _ hp o ho', ao.lookup o ho']
+          have : ¬ o = nOwners h := by rw [← ao.len]; exact e
+          simp [visible, this]
+    · have hlt' : ¬ p < s.owners.length := by rw [ao.len]; exact hlt
+      simp only [step, obsAt, hlt, hlt', if_false, if_true, true_and]
+      exact ⟨ac, am, ao⟩
+  | useCtx p =>
+    by_cases hlt : p < nOwners h
+    · have hlt' : p < s.owners.length := by rw [ao.len]; exact hlt
+      have hl : s.lookup p = visible h p := ao.lookup p hlt'
+      cases hvis : visible h p with
+      | none =>
+        rw [hvis] at hl
+        simp only [step, obsAt, hlt, hlt', if_true, hl, hvis, reduceCtorEq, if_false, true_and]
+        exact ⟨⟨by simp [Spec.views, hvis, ac.views], by simp [Spec.closures, ac.closures], by simp [nCtx, ac.len],
+          fun c => by simp [current, ac.cells]⟩, am.neutral _ rfl, ao.neutral _ rfl⟩
+      | some c =>
+        rw [hvis] at hl
+        simp only [step, obsAt, hlt, hlt', if_true, hl, hvis, ac.views, reduceCtorEq, if_false, true_and]
+        exact ⟨⟨by simp [Spec.views, hvis], by simp [Spec.closures, ac.closures], by simp [nCtx, ac.len],
+          fun c => by simp [current, ac.cells]⟩, am.neutral _ rfl, ao.neutral _ rfl⟩
+    · have hlt' : ¬ p < s.owners.length := by rw [ao.len]; exact hlt
+      simp only [step, obsAt, hlt, hlt', if_false, if_true, true_and]
+      exact ⟨ac, am, ao⟩
 
 end I18nVerif.Context
